@@ -1300,6 +1300,9 @@ class Gen:
                     self.f08_used += 1
                     body.append(S("%sprocedure :: %s" % (r.pick(["module ", ""]), r.pick(["p1", "p1, p2"])),
                                   "module_proc", f08=True))
+                elif r.chance(30) and not self.avoid("no_bare_procedure_stmt_in_interface"):
+                    # R1206: [ MODULE ] PROCEDURE procedure-name-list - the bare form is F2003 too
+                    body.append(S("procedure %s" % r.pick(["p1", "p1, p2"]), "module_proc"))
                 else:
                     body.append(S("module procedure %s" % r.pick(["p1", "p1, p2"]), "module_proc"))
             else:
